@@ -194,6 +194,8 @@ impl AsmParser {
 
             // Parse line
             if let Some(tok) = self.toks.next() {
+                // A statement ends where its mnemonic ends, unless operands follow
+                self.tok_end = tok.span.end();
                 let stmt = match tok.kind {
                     // Lines should not start with these tokens
                     TokenKind::Label | TokenKind::Lit(_) | TokenKind::Reg(_) => {
